@@ -362,6 +362,25 @@ def g_long(flags="nc", counts=None):
     return out
 
 
+def g_long_nonascii(flags="", totals=(127, 128, 255, 256, 511, 512, 513, 1024, 4096, 65535, 65536)):
+    """long NON-ASCII strings in every string position, arranged so that a multi-byte character straddles every
+    byte offset that is a power of two (or one off): fixed-offset slicing of such a string is not on a boundary"""
+    out = []
+    for total in totals:
+        for off in (0, 1):
+            for ch in ("\u00e9", "\u20ac", "\U0001F600"):
+                body = "a" * off + ch * (total // len(ch.encode()) + 4)
+                name = "n" * off + "\u00e9" * (total // 2 + 4)
+                meta = {"gen": "long-nonascii", "total": total, "off": off}
+                out.append(Case("<e>" + body + "</e>", flags, True, meta=dict(meta, where="text")))
+                out.append(Case("<e><!--" + body + "--><?p " + body + "?></e>", flags, True, meta=dict(meta, where="comment-pi")))
+                out.append(Case("<e k='" + body + "' j='&#9;" + body + "'/>", flags, True, meta=dict(meta, where="attr-value")))
+                out.append(Case("<e><![CDATA[" + body + "]]>&amp;" + body + "</e>", flags, True, meta=dict(meta, where="cdata-merged")))
+            out.append(Case("<e " + name + "='v' x" + name + "  =  'w'/>", flags, True, meta={"gen": "long-nonascii", "total": total, "off": off, "where": "attr-name"}))
+            out.append(Case("<" + name + "></" + name + ">", flags, True, meta={"gen": "long-nonascii", "total": total, "off": off, "where": "tag-name"}))
+    return out
+
+
 # ---------------------------------------------------------------------------------------------
 # G-ns: exhaustive small namespace scoping documents (C06)
 # ---------------------------------------------------------------------------------------------
